@@ -9,6 +9,8 @@ mod fq;
 mod gens;
 mod props;
 mod selftest;
+mod svgcase;
+mod svgpath;
 
 use engine::{Engine, Tier};
 
